@@ -4,7 +4,7 @@ C13 — Liang hyphenation: model of `crates/hyphenate/src/lib.rs`
 calculate_aggregate_scores, calculate_indices}` and the private `trie` module) and the
 specification (Liang's definition, exceptions verbatim, lower-case map).
 
-The model describes the code *with `fixes/C13-a.patch` applied* (exceptions are stored as
+The model describes the code *with `fixes/C13-a.patch` and `fixes/C13-b.patch` applied* (exceptions are stored as
 ops 12/13, which lie above every pattern digit, and only ops 10/11 terminate a stream); the
 unpatched code stores them as 6/7 and treats every op ≥ 10 as a terminator, which differs
 only on words that are listed exceptions (finding C13-a).
@@ -87,12 +87,25 @@ def patOps (p : List Char) : List Nat × List Edge :=
     | .afterScore => [term]
   (r.1 ++ tail, path)
 
+/-- The stream at offset `o` is an exception's: it starts with an exception score (12/13). -/
+def isExcAt (data : List Nat) (o : Nat) : Bool := decide (12 ≤ data.getD o 0 % 16)
+
+/-- The vertex named `p` holds an exception. -/
+def holdsExc (h : Hyph) (p : List Edge) : Bool :=
+  match lookup h.trie p with
+  | some o => isExcAt h.data o
+  | none => false
+
 /-- One iteration of the `for pattern in patterns.split_whitespace()` loop. A pattern
-without any edge writes its `Value` to the dummy `empty_value`: no trie entry. -/
+without any edge writes its `Value` to the dummy `empty_value`: no trie entry. A vertex that
+holds an exception keeps it (`holds_exception`, fix C13-b): a pattern `.w.` never replaces the
+exception for `w`. -/
 def loadPattern (h : Hyph) (p : List Char) : Hyph :=
   let r := patOps p
   { data := h.data ++ r.1,
-    trie := if r.2 = [] then h.trie else (r.2, h.data.length) :: h.trie }
+    trie := if r.2 = [] then h.trie
+            else if holdsExc h r.2 then h.trie
+            else (r.2, h.data.length) :: h.trie }
 
 def loadPatterns (h : Hyph) (ps : List (List Char)) : Hyph := ps.foldl loadPattern h
 
